@@ -26,7 +26,7 @@ CLAIMED["C20"] = dict(
 
 CLAIMED["C14"] = dict(
     technique="static analysis: may-reachability over MIR CFGs (Poll::Pending without a registered waker), finite evaluation of the extracted ring-buffer index expressions (helper calls inlined) against the modular reference, avoid-reachability pairing of state changes with wake calls, guard-polarity dominance checks, who-may-write census of cursor fields with expression-shape extraction",
-    text="For every poll function of the send/receive buffers: Pending is never returned on a path that did not register the waker (lost wake-up), each side parks in and wakes the right waker slot, every buffer state change that can unblock the other side reaches the corresponding wake on all paths (can_write sampled before take, close wakes the reader, a completed write wakes index i+1, a consumed message calls wake_next), next_op returns Pending only if the waker was accepted and advances `next` only after a ready operation, and the cursors/woken_at are written only by their owner operation with the documented wrap/max expressions; the ring arithmetic of the send buffer (len, remaining, inc, range, mask, wrap), evaluated from the extracted expressions for every capacity up to 10 and every cursor pair, equals the modular reference, take()/write() move exactly the bytes they advance over and split a wrapped read correctly. Decides waker and cursor discipline, not byte-exact queue equivalence or deadlock freedom over all schedules.",
+    text="For every poll function of the send/receive buffers: Pending is never returned on a path that did not register the waker (lost wake-up), each side parks in and wakes the right waker slot, every buffer state change that can unblock the other side reaches the corresponding wake on all paths (can_write sampled before take, close wakes the reader, a completed write wakes index i+1, a consumed message calls wake_next), next_op returns Pending only if the waker was accepted and advances `next` only after a ready operation, and the cursors/woken_at are written only by their owner operation with the documented wrap/max expressions; the ring arithmetic of the send buffer (len, remaining, inc, range, mask, wrap), evaluated from the extracted expressions for every capacity up to 10 and every cursor pair, equals the modular reference, take()/write() move exactly the bytes they advance over and split a wrapped read correctly; the sender's waker shards stay sorted and add/wake agree on the shard; the receiver's waker ring is used exactly for the records of its window, one slot each; the receive side's message reassembly slices every byte exactly once. Decides waker and cursor discipline, not byte-exact queue equivalence or deadlock freedom over all schedules.",
     ref="§3 C14")
 
 CLAIMED["C15"] = dict(
